@@ -1,3 +1,397 @@
-/- Property theorems for C07 (stub: not built yet). -/
+/-
+C07  evaluate() reports what an honest per-fold fit, predict and score would give.
+
+Property theorems about SkVerif/Model/Evaluate.lean (the code's fold loop with an abstract
+forecaster machine `m`, an abstract metric and the C01 splitter model) against
+SkVerif/Spec/Evaluate.lean (the honest per-fold computation).  Helper lemmas live in
+SkVerif/Lemmas/Evaluate*.lean.  Everything is quantified over all series `y` (values of any type
+`α`), exogenous data `X`, splitter configurations `cv`, strategies, forecaster machines (any state
+type `σ`, operations may raise), metrics (any score type `β`) and fit parameters.
+
+Hypotheses used:
+* `CVValid y.length cv`  a valid splitter configuration in the sense of C01 (out-of-sample strictly
+  increasing horizon, window/step ≥ 1, window + max(fh) ≤ n, …) with `start_with_window = True`;
+* `InputOK y X`          distinct ordered time points, exogenous rows on the same time points;
+* `resolveScoring … = .ok mt`, `mt.name = some nm`   the metric object `check_scoring` returns
+  and its name (the score column is `test_<name>`);
+* `FitResets m`          (refit only) `fit` does not depend on the forecaster's earlier state, so
+  that refitting the same object is the same as fitting a fresh one.
+
+KNOWN FINDING (`evaluate:score-args-swapped`): the code calls `scoring(y_pred, y_test)`.  The
+model keeps that (`Evaluate.applyMetric`), the row theorems are stated with `applyMetric μ`, and
+the clause "the metric is called as metric(y_true, y_pred)" is proved only for symmetric metrics
+(`score_arg_order_partial`) and refuted for an asymmetric one (`score_arg_order_fails`).
+-/
+import SkVerif.Lemmas.EvaluateCols
 namespace SkVerif.C07
+open SkVerif SkVerif.Split SkVerif.Evaluate SkVerif.Evaluate.Spec SkVerif.Lem.Ev
+
+variable {σ α ξ β : Type}
+
+/-- the data of the folds the splitter yields on the series -/
+def foldDatas (cv : CV) (y : Series α) (X : Option (Series ξ)) (fs : List Fold) : List (FoldData α ξ) :=
+  fs.map (foldData y X (fhMin cv.fh))
+
+/-! ### one row per split -/
+
+/-- Whenever `evaluate` returns a table (any forecaster, metric, splitter, strategy), the splitter
+split the series and the table has exactly one row per split. -/
+theorem rows_eq_splits (m : Machine σ α ξ) (dflt : Metric α β) (st0 : σ) (cv : CV) (y : Series α)
+    (X : Option (Series ξ)) (strategy : Strategy) (scoring : Scoring α β) (fp : Option Int) (rd : Bool)
+    (tr : List (Call α ξ)) (t : Table α β)
+    (h : evaluate m dflt st0 cv y X strategy scoring fp rd = (tr, .ok t)) :
+    ∃ fs, cv.split y.length = .ok fs ∧ t.rows.length = fs.length := by
+  obtain ⟨mt, nm, fs, _, _, _, _, _, hsp, hl, _, _⟩ := evaluate_ok_inv m dflt st0 cv y X strategy scoring fp rd tr t h
+  exact ⟨fs, hsp, loop_length _ fs 0 st0 t.rows (by rw [hl])⟩
+
+/-! ### each row is the honest fold -/
+
+/-- Strategy refit: the result of `evaluate` (table or exception) is exactly the table of the
+honest folds — for each split, a FRESH forecaster fitted on exactly the split's training window
+(and exogenous training rows, horizon = the split's test time points, the given fit parameters),
+asked to predict exactly the split's test time points; the row holds that forecast's score, the
+window length, the forecaster's cutoff and (with `return_data`) the data.  The score is
+`applyMetric μ y_true y_pred`, see `score_arg_order_*` for the argument order. -/
+theorem row_eq_honest_fold_refit (m : Machine σ α ξ) (dflt : Metric α β) (st0 : σ) (cv : CV) (y : Series α)
+    (X : Option (Series ξ)) (scoring : Scoring α β) (fp : Option Int) (rd : Bool) (mt : Metric α β) (nm : String)
+    (fs : List Fold) (hcv : CVValid y.length cv) (hin : InputOK y X) (hr : FitResets m)
+    (hm : resolveScoring dflt scoring = .ok mt) (hn : mt.name = some nm) (hsp : cv.split y.length = .ok fs) :
+    (evaluate m dflt st0 cv y X .refit scoring fp rd).2 =
+      tableOf nm (collect ((foldDatas cv y X fs).map
+        (fun d => rowE m (applyMetric mt.fn) rd (honestRefit m st0 fp d)))) := by
+  obtain ⟨_, _, he⟩ := evaluate_valid_eq m dflt st0 cv y X .refit scoring fp rd mt nm fs hcv hin (by decide) hm hn hsp
+  rw [he]
+  simp only
+  rw [loopD_refit ⟨m, mt.fn, .refit, rd, fp, y, X, cv.fh⟩ st0 hr rfl]
+  rfl
+
+/-- Strategy update: the result of `evaluate` is exactly the table of the honest histories — row
+`i` comes from a fresh forecaster fitted once on the first split's window and then, after
+predicting each split, updated with exactly the next split's window, up to split `i`, whose test
+time points it then predicts (`prefixes` = the histories: first `i+1` splits). -/
+theorem row_eq_honest_fold_update (m : Machine σ α ξ) (dflt : Metric α β) (st0 : σ) (cv : CV) (y : Series α)
+    (X : Option (Series ξ)) (scoring : Scoring α β) (fp : Option Int) (rd : Bool) (mt : Metric α β) (nm : String)
+    (fs : List Fold) (hcv : CVValid y.length cv) (hin : InputOK y X)
+    (hm : resolveScoring dflt scoring = .ok mt) (hn : mt.name = some nm) (hsp : cv.split y.length = .ok fs) :
+    (evaluate m dflt st0 cv y X .update scoring fp rd).2 =
+      tableOf nm (collect ((prefixes (foldDatas cv y X fs)).map
+        (fun hist => rowE m (applyMetric mt.fn) rd (honestUpdate m st0 fp hist)))) := by
+  obtain ⟨_, _, he⟩ := evaluate_valid_eq m dflt st0 cv y X .update scoring fp rd mt nm fs hcv hin (by decide) hm hn hsp
+  rw [he]
+  simp only
+  rw [loopD_update ⟨m, mt.fn, .update, rd, fp, y, X, cv.fh⟩ st0 rfl]
+  rfl
+
+/-- the `i`-th history is the first `i+1` splits -/
+theorem history_is_first_splits {γ : Type} (l : List γ) (i : Nat) (hi : i < l.length) :
+    (prefixes l)[i]? = some (l.take (i + 1)) := prefixes_getElem? l i hi
+
+/-- Row by row (refit): if `evaluate` returns a table, then for every split `i` the honest fold
+succeeds and row `i` is its row. -/
+theorem row_eq_honest_fold_refit_each (m : Machine σ α ξ) (dflt : Metric α β) (st0 : σ) (cv : CV) (y : Series α)
+    (X : Option (Series ξ)) (scoring : Scoring α β) (fp : Option Int) (rd : Bool) (mt : Metric α β) (nm : String)
+    (fs : List Fold) (hcv : CVValid y.length cv) (hin : InputOK y X) (hr : FitResets m)
+    (hm : resolveScoring dflt scoring = .ok mt) (hn : mt.name = some nm) (hsp : cv.split y.length = .ok fs)
+    (t : Table α β) (ht : (evaluate m dflt st0 cv y X .refit scoring fp rd).2 = .ok t)
+    (i : Nat) (f : Fold) (hf : fs[i]? = some f) :
+    ∃ h, honestRefit m st0 fp (foldData y X (fhMin cv.fh) f) = .ok h ∧
+      t.rows[i]? = some (rowOf m (applyMetric mt.fn) rd h) := by
+  rw [row_eq_honest_fold_refit m dflt st0 cv y X scoring fp rd mt nm fs hcv hin hr hm hn hsp] at ht
+  cases hc : collect ((foldDatas cv y X fs).map (fun d => rowE m (applyMetric mt.fn) rd (honestRefit m st0 fp d))) with
+  | error e => rw [hc] at ht; simp [tableOf] at ht
+  | ok rows =>
+    rw [hc] at ht
+    simp only [tableOf] at ht
+    split at ht
+    · simp at ht
+    · simp only [Except.ok.injEq] at ht
+      subst ht
+      obtain ⟨r, hr1, hr2⟩ := collect_ok_getElem? _ rows hc i
+        (rowE m (applyMetric mt.fn) rd (honestRefit m st0 fp (foldData y X (fhMin cv.fh) f)))
+        (by simp [foldDatas, hf])
+      cases hh : honestRefit m st0 fp (foldData y X (fhMin cv.fh) f) with
+      | error e => rw [hh] at hr1; simp [rowE] at hr1
+      | ok h =>
+        rw [hh] at hr1
+        simp only [rowE, Except.ok.injEq] at hr1
+        exact ⟨h, rfl, by rw [hr1]; exact hr2⟩
+
+/-! ### the metric's argument order -/
+
+/-- FULL STATEMENT (does not hold for the code as it is, see `score_arg_order_fails`):
+  `∀ μ y_true y_pred, applyMetric μ y_true y_pred = μ y_true y_pred`,
+i.e. every row's score is `honestRow`'s score.  Proved here for symmetric metrics only: for those
+the rows of `row_eq_honest_fold_*` are the honest rows, score included. -/
+theorem score_arg_order_partial (m : Machine σ α ξ) (μ : Series α → Series α → β) (hsym : ∀ a b, μ a b = μ b a)
+    (rd : Bool) (h : Honest σ α) :
+    applyMetric μ h.yTest h.yPred = μ h.yTest h.yPred ∧ rowOf m (applyMetric μ) rd h = honestRow m μ rd h := by
+  have : applyMetric μ h.yTest h.yPred = μ h.yTest h.yPred := hsym _ _
+  exact ⟨this, by simp only [honestRow, rowOf, this]⟩
+
+/-- a forecaster that forecasts the last value it was fitted on / updated with -/
+def naive : Machine (Int × Int) Int Unit where
+  fit _ y _ _ _ := .ok (match y.getLast? with | some e => (e.2, e.1) | none => (0, 0))
+  update s y _ := .ok (match y.getLast? with | some e => (e.2, e.1) | none => s)
+  predict s fh _ := .ok (s, fh.map (fun l => (l, s.1)))
+  cutoff s := s.2
+
+/-- the asymmetric metric `Σ (2·y_true − y_pred)` -/
+def asym (a b : Series Int) : Int := ((a.map Prod.snd).zipWith (fun x y => 2 * x - y) (b.map Prod.snd)).sum
+
+/-- The negation at a concrete witness: series 1,2,3,4, expanding window (initial 2, fh = 1),
+last-value forecaster, metric `Σ(2·y_true − y_pred)`: `evaluate` reports 1 and 2, the honest folds
+score 4 and 5.  Hence the full statement of the argument-order clause is false for the code. -/
+theorem score_arg_order_fails :
+    (match (evaluate naive ⟨some "d", asym⟩ (0, 0) (.expanding [1] 2 1 true) [(0, 1), (1, 2), (2, 3), (3, 4)]
+        (none : Option (Series Unit)) .refit (.some ⟨some "asym", asym⟩) none false).2 with
+      | .ok t => t.rows.map (·.score)
+      | .error _ => []) = [1, 2] ∧
+    (foldDatas (.expanding [1] 2 1 true) [(0, (1 : Int)), (1, 2), (2, 3), (3, 4)] (none : Option (Series Unit))
+        [([0, 1], [2]), ([0, 1, 2], [3])]).map
+      (fun d => match honestRefit naive (0, 0) none d with
+        | .ok h => (honestRow naive asym false h).score
+        | .error _ => 0) = [4, 5] ∧
+    ¬ (∀ (μ : Series Int → Series Int → Int) (a b : Series Int), applyMetric μ a b = μ a b) := by
+  refine ⟨by decide, by decide, ?_⟩
+  intro h
+  have := h asym [(2, 3)] [(2, 2)]
+  revert this
+  decide
+
+/-! ### the len_train_window, cutoff and return_data columns -/
+
+/-- `len_train_window` of row `i` is the number of training positions of split `i`, and the
+`cutoff` column is what the forecaster reports after the fold (`rowOf` in the row theorems). -/
+theorem cutoff_and_len_columns (m : Machine σ α ξ) (dflt : Metric α β) (st0 : σ) (cv : CV) (y : Series α)
+    (X : Option (Series ξ)) (strategy : Strategy) (scoring : Scoring α β) (fp : Option Int) (rd : Bool)
+    (fs : List Fold) (hcv : CVValid y.length cv) (hin : InputOK y X) (hsp : cv.split y.length = .ok fs)
+    (tr : List (Call α ξ)) (t : Table α β)
+    (h : evaluate m dflt st0 cv y X strategy scoring fp rd = (tr, .ok t)) :
+    t.rows.map (·.lenTrain) = fs.map (fun f => f.1.length) ∧
+    ∀ (sc : Series α → Series α → β) (hh : Honest σ α), (rowOf m sc rd hh).cutoff = m.cutoff hh.st := by
+  obtain ⟨mt, nm, _, _, _, hok, _, hl⟩ := evaluate_ok_valid m dflt st0 cv y X strategy scoring fp rd fs hcv hin hsp tr t h
+  refine ⟨?_, fun _ _ => rfl⟩
+  rw [rows_lenTrain _ _ 0 st0 t.rows (by rw [hl]), List.map_map]
+  apply List.map_congr_left
+  intro f hf
+  exact sel_length y f.1 (hok.each f hf).train_range
+
+/-- For a forecaster whose cutoff is the last time point it was trained on or updated with
+(`CutoffTracks`), the `cutoff` column of row `i` is the time point of the last observation of
+split `i`'s training window — under both strategies. -/
+theorem cutoff_column_is_last_train_label (m : Machine σ α ξ) (hct : CutoffTracks m) (dflt : Metric α β) (st0 : σ)
+    (cv : CV) (y : Series α) (X : Option (Series ξ)) (strategy : Strategy) (scoring : Scoring α β) (fp : Option Int)
+    (rd : Bool) (fs : List Fold) (hcv : CVValid y.length cv) (hin : InputOK y X) (hsp : cv.split y.length = .ok fs)
+    (tr : List (Call α ξ)) (t : Table α β)
+    (h : evaluate m dflt st0 cv y X strategy scoring fp rd = (tr, .ok t)) :
+    t.rows.map (·.cutoff) = fs.map (fun f => ((labels (sel y f.1)).getLast?).getD 0) := by
+  obtain ⟨mt, nm, _, _, _, hok, _, hl⟩ := evaluate_ok_valid m dflt st0 cv y X strategy scoring fp rd fs hcv hin hsp tr t h
+  rw [rows_cutoff ⟨m, mt.fn, strategy, rd, fp, y, X, cv.fh⟩ hct _ ?_ 0 st0 t.rows (by rw [hl]), List.map_map]
+  · rfl
+  · intro d hd
+    obtain ⟨f, hf, rfl⟩ := List.mem_map.mp hd
+    exact sel_ne_nil y f.1 (hok.each f hf).train_range (hok.each f hf).train_nonempty
+
+/-- With `return_data` the three extra columns of row `i` hold exactly split `i`'s training window,
+its test observations and the very forecast the row's score was computed from; without it they
+are absent. -/
+theorem return_data_columns (m : Machine σ α ξ) (dflt : Metric α β) (st0 : σ) (cv : CV) (y : Series α)
+    (X : Option (Series ξ)) (strategy : Strategy) (scoring : Scoring α β) (fp : Option Int) (rd : Bool)
+    (fs : List Fold) (hcv : CVValid y.length cv) (hin : InputOK y X) (hsp : cv.split y.length = .ok fs)
+    (tr : List (Call α ξ)) (t : Table α β)
+    (h : evaluate m dflt st0 cv y X strategy scoring fp rd = (tr, .ok t)) :
+    ∃ mt, resolveScoring dflt scoring = .ok mt ∧
+    List.Forall₂ (fun f row => ∃ p, row.score = applyMetric mt.fn (sel y f.2) p ∧
+      row.data = if rd then some (sel y f.1, sel y f.2, p) else none) fs t.rows := by
+  obtain ⟨mt, nm, hm, _, _, _, _, hl⟩ := evaluate_ok_valid m dflt st0 cv y X strategy scoring fp rd fs hcv hin hsp tr t h
+  refine ⟨mt, hm, ?_⟩
+  have := rows_data ⟨m, mt.fn, strategy, rd, fp, y, X, cv.fh⟩ _ 0 st0 t.rows (by rw [hl])
+  rw [List.forall₂_map_left_iff] at this
+  exact this
+
+/-! ### the calls the forecaster receives -/
+
+/-- The calls the forecaster receives are, in order, the honest calls — for split `i`:
+`fit(window_i, X-rows of window_i, fh = test time points_i, fit_params)` (first split, or
+refit) or `update(window_i, X-rows of window_i)`, then `predict(test time points_i, X test rows_i)` —
+all of them if `evaluate` returns a table, an initial segment if a call raised. -/
+theorem trace_eq_honest_calls (m : Machine σ α ξ) (dflt : Metric α β) (st0 : σ) (cv : CV) (y : Series α)
+    (X : Option (Series ξ)) (strategy : Strategy) (scoring : Scoring α β) (fp : Option Int) (rd : Bool)
+    (mt : Metric α β) (nm : String) (fs : List Fold) (hcv : CVValid y.length cv) (hin : InputOK y X)
+    (hs : strategy ≠ .invalid) (hm : resolveScoring dflt scoring = .ok mt) (hn : mt.name = some nm)
+    (hsp : cv.split y.length = .ok fs) :
+    (evaluate m dflt st0 cv y X strategy scoring fp rd).1 <+: honestTrace strategy fp 0 (foldDatas cv y X fs) ∧
+    (∀ t, (evaluate m dflt st0 cv y X strategy scoring fp rd).2 = .ok t →
+      (evaluate m dflt st0 cv y X strategy scoring fp rd).1 = honestTrace strategy fp 0 (foldDatas cv y X fs)) := by
+  obtain ⟨_, _, he⟩ := evaluate_valid_eq m dflt st0 cv y X strategy scoring fp rd mt nm fs hcv hin hs hm hn hsp
+  rw [he]
+  obtain ⟨h1, h2⟩ := loopD_trace ⟨m, mt.fn, strategy, rd, fp, y, X, cv.fh⟩ (fs.map (foldData y X (fhMin cv.fh))) 0 st0
+  refine ⟨h1, ?_⟩
+  intro t ht
+  simp only at ht
+  cases hr : (loopD ⟨m, mt.fn, strategy, rd, fp, y, X, cv.fh⟩ 0 st0 (fs.map (foldData y X (fhMin cv.fh)))).2 with
+  | error e => rw [hr] at ht; simp [tableOf] at ht
+  | ok rows => exact h2 rows hr
+
+/-- NO LEAKAGE.  Whatever the forecaster does (also when it raises), whatever the metric and the
+strategy: for every split `k`, every call among those made up to and including split `k`'s
+`predict` (each split makes two calls) carries, as training data (`y`/`X` of `fit`/`update`), only
+time points strictly before every test time point of split `k`.  From C01's `train_lt_test`,
+`positions_in_range` and cutoff progression via `folds_ordered_*`. -/
+theorem no_future_in_trace (m : Machine σ α ξ) (dflt : Metric α β) (st0 : σ) (cv : CV) (y : Series α)
+    (X : Option (Series ξ)) (strategy : Strategy) (scoring : Scoring α β) (fp : Option Int) (rd : Bool)
+    (fs : List Fold) (hcv : CVValid y.length cv) (hin : InputOK y X) (hsp : cv.split y.length = .ok fs)
+    (k : Nat) (f : Fold) (hf : fs[k]? = some f)
+    (c : Call α ξ) (hc : c ∈ ((evaluate m dflt st0 cv y X strategy scoring fp rd).1).take (2 * (k + 1)))
+    (l : Int) (hl : l ∈ obsLabels c) (lt : Int) (hlt : lt ∈ labels (sel y f.2)) : l < lt := by
+  rcases evaluate_trace_or m dflt st0 cv y X strategy scoring fp rd with hnil | ⟨mt, nm, fs', hs, _, hm, _, hn, hsp'⟩
+  · rw [hnil] at hc; simp at hc
+  · rw [hsp] at hsp'; cases hsp'
+    obtain ⟨hok, _, _⟩ := evaluate_valid_eq m dflt st0 cv y X strategy scoring fp rd mt nm fs hcv hin hs hm hn hsp
+    have hpre := (trace_eq_honest_calls m dflt st0 cv y X strategy scoring fp rd mt nm fs hcv hin hs hm hn hsp).1
+    exact no_future_core y X hin.strict hin.xlabels (fhMin cv.fh) fs hok strategy fp _ hpre k f hf c hc l hl lt hlt
+
+/-- the exogenous rows handed to `predict` for a fold `test = cutoff + fh` are the rows at the
+positions `cutoff + 1 … cutoff + max(fh)`: every step up to the last requested one -/
+theorem xtest_rows_are_steps_after_cutoff (fh : List Int) (hne : fh ≠ []) (c a : Int) :
+    xRows (fhMin fh) (arange a (c + 1), fh.map (c + ·)) = arange (c + 1) (c + fhMax fh + 1) :=
+  xRows_shape fh hne c a
+
+/-! ### the folds of every valid splitter are ordered (from C01) -/
+
+/-- sliding / expanding window splitters started with a full window -/
+theorem folds_ordered_window {k n wl step fh iw} (v : Split.Spec.Valid k n wl step fh iw true) (fs : List Fold)
+    (h : windowSplit k n fh wl step iw true = .ok fs) : FoldsOK n (fhMin fh) fs := foldsOK_window v fs h
+
+/-- the single-window splitter -/
+theorem folds_ordered_single (n : Int) (fh : List Int) (wl : Option Int)
+    (hs : fh.Pairwise (· < ·)) (hne : fh ≠ []) (hpos : ∀ h ∈ fh, 0 < h)
+    (hwl : ∀ w, wl = some w → 1 ≤ w) (hfit : fhMax fh ≤ n - 1) (fs : List Fold)
+    (h : singleSplit n fh wl = .ok fs) : FoldsOK n (fhMin fh) fs := foldsOK_single n fh wl hs hne hpos hwl hfit fs h
+
+/-- the cutoff splitter -/
+theorem folds_ordered_cutoff {n wl cs fh} (v : C01.CutoffValid n wl cs fh) (fs : List Fold)
+    (h : cutoffSplit n cs fh wl = .ok fs) : FoldsOK n (fhMin fh) fs := foldsOK_cutoff v fs h
+
+/-! ### what is rejected, what is accepted -/
+
+/-- Invalid arguments are rejected before any call reaches the forecaster: an unknown strategy
+(ValueError), something that is not a splitter (TypeError), a splitter with
+`start_with_window=False` (ValueError), a scoring argument that is not callable (TypeError), an
+infeasible window configuration (ValueError). -/
+theorem evaluate_rejects (m : Machine σ α ξ) (dflt : Metric α β) (st0 : σ) (cv : CV) (y : Series α)
+    (X : Option (Series ξ)) (strategy : Strategy) (scoring : Scoring α β) (fp : Option Int) (rd : Bool) :
+    (strategy = .invalid → evaluate m dflt st0 cv y X strategy scoring fp rd = ([], .error .value)) ∧
+    (strategy ≠ .invalid → cv = .notSplitter → evaluate m dflt st0 cv y X strategy scoring fp rd = ([], .error .type)) ∧
+    (strategy ≠ .invalid → (∃ fh wl step iw, cv = .sliding fh wl step iw false) ∨ (∃ fh wl step, cv = .expanding fh wl step false) →
+      evaluate m dflt st0 cv y X strategy scoring fp rd = ([], .error .value)) ∧
+    (strategy ≠ .invalid → checkCv cv = .ok () → scoring = .notCallable →
+      evaluate m dflt st0 cv y X strategy scoring fp rd = ([], .error .type)) ∧
+    (∀ k fh wl step iw mt nm, strategy ≠ .invalid → resolveScoring dflt scoring = .ok mt → mt.name = some nm →
+      (cv = .sliding fh wl step iw true ∧ k = Kind.sliding ∨ cv = .expanding fh wl step true ∧ k = Kind.expanding ∧ iw = none) →
+      fh.Pairwise (· < ·) → fh ≠ [] → (step < 1 ∨ wl < 1 ∨ wl + fhMax fh > y.length) →
+      evaluate m dflt st0 cv y X strategy scoring fp rd = ([], .error .value)) := by
+  refine ⟨?_, ?_, ?_, ?_, ?_⟩
+  · intro h; subst h; simp [evaluate]
+  · intro hs h; subst h
+    have : (strategy == Strategy.invalid) = false := by cases strategy <;> simp_all
+    simp [evaluate, this, checkCv]
+  · intro hs h
+    have : (strategy == Strategy.invalid) = false := by cases strategy <;> simp_all
+    rcases h with ⟨fh, wl, step, iw, rfl⟩ | ⟨fh, wl, step, rfl⟩ <;> simp [evaluate, this, checkCv]
+  · intro hs hcv h; subst h
+    have : (strategy == Strategy.invalid) = false := by cases strategy <;> simp_all
+    simp [evaluate, this, hcv, resolveScoring]
+  · intro k fh wl step iw mt nm hs hm hn hcv hsort hne hbad
+    have hs' : (strategy == Strategy.invalid) = false := by cases strategy <;> simp_all
+    have hrej := C01.window_rejects_infeasible k y.length wl step fh iw true hsort hne hbad
+    have hck : checkCv cv = .ok () := by
+      rcases hcv with ⟨rfl, _⟩ | ⟨rfl, _, _⟩ <;> rfl
+    have hsp : cv.split y.length = .error .value := by
+      rcases hcv with ⟨rfl, rfl⟩ | ⟨rfl, rfl, rfl⟩ <;> exact hrej
+    cases hyx : checkYX y X with
+    | error e =>
+      have he : e = .value := by
+        unfold checkYX at hyx
+        split at hyx
+        · cases hyx; rfl
+        · split at hyx
+          · cases hyx
+          · split at hyx
+            · cases hyx; rfl
+            · split at hyx
+              · cases hyx; rfl
+              · cases hyx
+      subst he
+      simp [evaluate, hs', hck, hm, hyx]
+    | ok u => simp [evaluate, hs', hck, hm, hyx, hn, hsp, ofSplitErr]
+
+/-- A valid call with a forecaster that never raises returns a table with one row per split, and
+the forecaster received exactly the honest calls. -/
+theorem evaluate_accepts (m : Machine σ α ξ) (htot : Total m) (dflt : Metric α β) (st0 : σ) (cv : CV) (y : Series α)
+    (X : Option (Series ξ)) (strategy : Strategy) (scoring : Scoring α β) (fp : Option Int) (rd : Bool)
+    (mt : Metric α β) (nm : String) (hcv : CVValid y.length cv) (hin : InputOK y X)
+    (hs : strategy ≠ .invalid) (hm : resolveScoring dflt scoring = .ok mt) (hn : mt.name = some nm) :
+    ∃ fs t, cv.split y.length = .ok fs ∧ fs ≠ [] ∧
+      evaluate m dflt st0 cv y X strategy scoring fp rd = (honestTrace strategy fp 0 (foldDatas cv y X fs), .ok t) ∧
+      t.scoreName = "test_" ++ nm ∧ t.rows.length = fs.length := by
+  obtain ⟨fs, hsp, _, hne, _, _⟩ := cv_split_ok hcv
+  obtain ⟨_, _, he⟩ := evaluate_valid_eq m dflt st0 cv y X strategy scoring fp rd mt nm fs hcv hin hs hm hn hsp
+  obtain ⟨rows, hr⟩ := loopD_total ⟨m, mt.fn, strategy, rd, fp, y, X, cv.fh⟩ htot (fs.map (foldData y X (fhMin cv.fh))) 0 st0
+  have hlen := loopD_length _ _ 0 st0 rows hr
+  have hrne : rows.isEmpty = false := by
+    cases rows with
+    | nil =>
+      simp only [List.length_nil, List.length_map] at hlen
+      exact absurd (List.length_eq_zero_iff.mp hlen.symm) hne
+    | cons a l => rfl
+  have htr := (loopD_trace ⟨m, mt.fn, strategy, rd, fp, y, X, cv.fh⟩ (fs.map (foldData y X (fhMin cv.fh))) 0 st0).2 rows hr
+  refine ⟨fs, ⟨"test_" ++ nm, rows⟩, hsp, hne, ?_, rfl, by simpa using hlen⟩
+  rw [he, hr, htr]
+  simp only [tableOf, hrne, Bool.false_eq_true, ↓reduceIte]
+  rfl
+
+/-! ### non-vacuity: concrete inputs meeting the hypotheses -/
+
+example : CVValid 10 (.sliding [1, 2] 3 2 none true) :=
+  .sliding ⟨by decide, by decide, by decide, by decide, by decide, by decide, by intro i h; cases h⟩
+example : CVValid 10 (.sliding [2] 3 1 (some 5) true) :=
+  .sliding ⟨by decide, by decide, by decide, by decide, by decide, by decide,
+    by intro i h; cases h; exact ⟨rfl, rfl, by decide, by decide⟩⟩
+example : CVValid 4 (.expanding [1] 2 1 true) :=
+  .expanding ⟨by decide, by decide, by decide, by decide, by decide, by decide, by intro i h; cases h⟩
+example : CVValid 10 (.single [1, 3] (some 4)) :=
+  .single (by decide) (by decide) (by decide) (by intro w h; cases h; decide) (by decide)
+example : CVValid 10 (.cutoff [7, 3] [2] 3) :=
+  .cutoff ⟨by decide, by decide, by decide, by decide, by decide, by decide, by decide⟩
+example : InputOK [(0, (1 : Int)), (1, 2), (2, 3), (3, 4)] (some [(0, ()), (1, ()), (2, ()), (3, ())]) :=
+  ⟨by unfold StrictLabels labels; decide, by intro X' h; cases h; rfl⟩
+example : FitResets naive := by intro s s' y X fh p; rfl
+example : Total naive := ⟨fun _ _ _ _ _ => ⟨_, rfl⟩, fun _ _ _ => ⟨_, rfl⟩, fun _ _ _ => ⟨_, rfl⟩⟩
+example : CutoffTracks naive := by
+  refine ⟨?_, ?_, ?_⟩
+  · intro s y X fh p s' h l hl
+    simp only [naive, Except.ok.injEq] at h
+    subst h
+    simp only [labels, List.getLast?_map, Option.map_eq_some_iff] at hl
+    obtain ⟨e, he, rfl⟩ := hl
+    simp [naive, he]
+  · intro s y X s' h l hl
+    simp only [naive, Except.ok.injEq] at h
+    subst h
+    simp only [labels, List.getLast?_map, Option.map_eq_some_iff] at hl
+    obtain ⟨e, he, rfl⟩ := hl
+    simp [naive, he]
+  · intro s fh X s' p h
+    simp only [naive, Except.ok.injEq, Prod.mk.injEq] at h
+    rw [← h.1]
+/-- the update strategy on the same series: one fit, then one update per later split -/
+example : (evaluate naive ⟨some "d", asym⟩ (0, 0) (.expanding [1] 2 1 true) [(0, 1), (1, 2), (2, 3), (3, 4)]
+      (none : Option (Series Unit)) .update (.some ⟨some "asym", asym⟩) none false).1 =
+    [.fit [(0, 1), (1, 2)] none [2] none, .predict [2] none,
+     .update [(0, 1), (1, 2), (2, 3)] none, .predict [3] none] := by decide
+/-- a symmetric metric: the row scores are the honest scores -/
+example (a b : Series Int) : (fun a b : Series Int => asym a b + asym b a) a b = (fun a b : Series Int => asym a b + asym b a) b a :=
+  Int.add_comm _ _
+
 end SkVerif.C07
